@@ -375,6 +375,35 @@ def term_val(x):
     raise ValueError(repr(x))
 
 
+_CODE_CACHE: dict = {}
+
+
+def _compile(src: str):
+    """the function is rewritten to return (kind, value, locals) so that the final environment is observable"""
+    code = _CODE_CACHE.get(src)
+    if code is not None:
+        return code
+    tree = ast.parse(src)
+    fn = tree.body[0]
+    envt = lambda: ast.Tuple(elts=[ast.Name(f"v{k}", ast.Load()) for k in range(NV)], ctx=ast.Load())  # noqa
+
+    class R(ast.NodeTransformer):
+        def visit_Return(self, node):
+            return ast.copy_location(ast.Return(value=ast.Tuple(
+                elts=[ast.Constant("ret"), node.value, envt()], ctx=ast.Load())), node)
+    fn = R().visit(fn)
+    fn.body.append(ast.Return(value=ast.Tuple(elts=[ast.Constant("normal"), ast.Constant(None), envt()], ctx=ast.Load())))
+    handler = ast.ExceptHandler(type=ast.Name("E", ast.Load()), name=None, body=[ast.Return(value=ast.Tuple(
+        elts=[ast.Constant("exc"), ast.Constant(None), envt()], ctx=ast.Load()))])
+    fn.body = [ast.Try(body=fn.body, handlers=[handler], orelse=[], finalbody=[])]
+    ast.fix_missing_locations(tree)
+    code = compile(tree, "<minipy>", "exec")
+    if len(_CODE_CACHE) > 20000:
+        _CODE_CACHE.clear()
+    _CODE_CACHE[src] = code
+    return code
+
+
 def run_python(src: str, init, script, line_budget=20000):
     """Execute `def f(v0,v1,v2)` from src with stubs e/c/it driven by `script` (list of val terms; exhausted
     -> False).  Returns None when the line budget is exceeded (divergence), else
@@ -406,29 +435,8 @@ def run_python(src: str, init, script, line_budget=20000):
                 yield None
         return gen()
 
-    final = {}
-    # the function is rewritten to return (value, locals) so that the final environment is observable
-    tree = ast.parse(src)
-    fn = tree.body[0]
-
-    class R(ast.NodeTransformer):
-        def visit_Return(self, node):
-            return ast.copy_location(ast.Return(value=ast.Tuple(
-                elts=[ast.Constant("ret"), node.value, ast.Tuple(elts=[ast.Name(f"v{k}", ast.Load()) for k in range(NV)], ctx=ast.Load())],
-                ctx=ast.Load())), node)
-    fn = R().visit(fn)
-    fn.body.append(ast.Return(value=ast.Tuple(
-        elts=[ast.Constant("normal"), ast.Constant(None), ast.Tuple(elts=[ast.Name(f"v{k}", ast.Load()) for k in range(NV)], ctx=ast.Load())],
-        ctx=ast.Load())))
-    # exceptions: wrap the body to capture the environment
-    body = fn.body
-    handler = ast.ExceptHandler(type=ast.Name("E", ast.Load()), name=None, body=[ast.Return(value=ast.Tuple(
-        elts=[ast.Constant("exc"), ast.Constant(None), ast.Tuple(elts=[ast.Name(f"v{k}", ast.Load()) for k in range(NV)], ctx=ast.Load())],
-        ctx=ast.Load()))])
-    fn.body = [ast.Try(body=body, handlers=[handler], orelse=[], finalbody=[])]
-    ast.fix_missing_locations(tree)
     g = {"e": e, "c": c, "it": it, "E": E}
-    exec(compile(tree, "<minipy>", "exec"), g)
+    exec(_compile(src), g)
     count = [0]
 
     def tracer(frame, event, arg):
